@@ -39,3 +39,10 @@ Definition cc_closed (s : ConnClose.cst nat) : bool := ConnClose.wr_closed nat s
 Definition mq_EPS_replay : nat := 5000.
 Definition mq_step_replay (fixed : bool) (s : MsgQueue.st nat) (l : MsgQueue.label nat) : option (MsgQueue.st nat) :=
   MsgQueue.step nat mq_MS mq_EPS_replay fixed s l.
+
+(* the pool model with the crate's real idle period (5000 ms, clock unit 1 ms) for lock-step replay of traces
+   recorded under the controllable runtime *)
+Definition tp_IDLE_replay : nat := 5000.
+Definition tp_BIG_replay : nat := 100000.
+Definition tp_step_replay (fixed : bool) (s : TaskPool.st nat) (l : TaskPool.label nat) : option (TaskPool.st nat) :=
+  TaskPool.step nat tp_MIN tp_IDLE_replay tp_BIG_replay fixed s l.
